@@ -565,7 +565,9 @@ static void do_hmac(World &w, TaskState &t, const Op &op, int index) {
         Buf out(inplace ? std::max<size_t>(32, msg.size()) : 32, (size_t)(op.c & 7)); memset(out.p, 0xEE, out.len);
         Buf in(msg.size(), (size_t)((op.c >> 3) & 7));
         if (!msg.empty()) { memcpy(in.p, msg.data(), msg.size()); if (inplace) memcpy(out.p, msg.data(), msg.size()); }
-        const unsigned char *kp = (key.empty() && (op.flags & F_NULLPTR)) ? nullptr : (key.empty() ? g_dummy : key.data());
+        Buf kb(key.size(), (size_t)((op.c >> 6) & 7));   // key at any alignment
+        if (!key.empty()) memcpy(kb.p, key.data(), key.size());
+        const unsigned char *kp = (key.empty() && (op.flags & F_NULLPTR)) ? nullptr : kb.p;
         { CallScope cs(t); tinyjambu_hmac(out.p, kp, key.size(), inplace ? out.p : in.p, msg.size()); }
         if (on) {
             uint8_t exp[32];
@@ -590,8 +592,9 @@ static void do_hmac(World &w, TaskState &t, const Op &op, int index) {
         op_bytes(o.key, (size_t)op.a, op, 2);
         o.key_null = o.key.empty() && (op.flags & F_NULLPTR);
         // the caller keeps its key in one long-lived buffer: a new key of the same length lands at the same address
-        if (o.keybuf.size() < o.key.size() + 8) o.keybuf.resize(std::max<size_t>(2200, o.key.size() + 8));
-        if (!o.key.empty()) memcpy(o.keybuf.data(), o.key.data(), o.key.size());
+        if (o.keybuf.size() < o.key.size() + 16) o.keybuf.resize(std::max<size_t>(2200, o.key.size() + 16));
+        o.keyoff = (size_t)(op.b & 7);   // the key need not be word aligned
+        if (!o.key.empty()) memcpy(o.keybuf.data() + o.keyoff, o.key.data(), o.key.size());
         switch (keyclass(o.key.size())) {
         case 0: bump(w, CT_P_HMAC_KEY_EMPTY); break;
         case 1: bump(w, CT_P_HMAC_KEY_LT64); break;
@@ -599,7 +602,7 @@ static void do_hmac(World &w, TaskState &t, const Op &op, int index) {
         default: bump(w, CT_P_HMAC_KEY_GT64); break;
         }
         if (on) state(w, 0x120000u | (keyclass(o.key.size()) << 4) | ev | (op.kind == M_REINIT ? 8u : 0u));
-        const unsigned char *kp = o.key_null ? nullptr : o.keybuf.data();
+        const unsigned char *kp = o.key_null ? nullptr : o.keybuf.data() + o.keyoff;
         { CallScope cs(t); if (op.kind == M_INIT) tinyjambu_hmac_init(st, kp, o.key.size()); else tinyjambu_hmac_reinit(st, kp, o.key.size()); }
         o.st = ST_LIVE; o.msg.clear(); o.ever_init = true;
         fence_check(w, o.m, C12, "HMAC state");
@@ -624,7 +627,7 @@ static void do_hmac(World &w, TaskState &t, const Op &op, int index) {
         Buf out(32, (size_t)(op.b & 7)); memset(out.p, 0xEE, 32);
         Buf kcopy(o.key.size(), (size_t)((op.b >> 3) & 7));   // the same key, supplied again from a different address
         if (!o.key.empty()) memcpy(kcopy.p, o.key.data(), o.key.size());
-        const unsigned char *kp = o.key_null ? nullptr : ((op.b & 64) ? kcopy.p : o.keybuf.data());   // same buffer or a copy elsewhere
+        const unsigned char *kp = o.key_null ? nullptr : ((op.b & 64) ? kcopy.p : o.keybuf.data() + o.keyoff);   // same buffer or a copy elsewhere
         { CallScope cs(t); tinyjambu_hmac_finalize(st, kp, o.key.size(), out.p); }
         o.st = ST_FINAL;
         if (on) {
@@ -731,8 +734,17 @@ static void do_hkdf(World &w, TaskState &t, const Op &op, int index) {
         Buf icopy(o.info.size(), (size_t)((op.b >> 3) & 7));   // the same info bytes, from a fresh buffer on every call
         if (!o.info.empty()) memcpy(icopy.p, o.info.data(), o.info.size());
         const unsigned char *ip = o.info_null ? nullptr : icopy.p;
+        // sometimes label and key material are neighbours in one record: info immediately followed by the output buffer
+        Buf packed(((op.b >> 6) & 3) == 3 && !o.info_null ? o.info.size() + len : 0, 0);
+        uint8_t *outp = out.p;
+        if (packed.len) { memcpy(packed.p, o.info.data(), o.info.size()); ip = packed.p; outp = packed.p + o.info.size(); if (len) memcpy(outp, out.p, len); }
         int rc;
-        { CallScope cs(t); rc = tinyjambu_hkdf_expand(st, ip, o.info.size(), out.p, len); }
+        { CallScope cs(t); rc = tinyjambu_hkdf_expand(st, ip, o.info.size(), outp, len); }
+        if (packed.len) {
+            if (!o.info.empty() && memcmp(packed.p, o.info.data(), o.info.size()) != 0) report(w, C13, "fence-broken", "HKDF expand modified the info bytes that sit right in front of its output buffer");
+            if (len) memcpy(out.p, outp, len);
+            if (!packed.tail_ok()) report(w, C13, "fence-broken", "HKDF expand wrote outside its output");
+        }
         size_t p = o.cursor;
         size_t avail = std::min(len, HKDF_MAX - p);
         if (on) {
@@ -789,6 +801,7 @@ static void do_hkdf(World &w, TaskState &t, const Op &op, int index) {
     }
 }
 
+extern "C" void sim_clean_dirty(void *p, uint64_t size_with_dirty_upper_half);   // wrappers_asm.S: tail-jumps to tinyjambu_clean
 // ---------------------------------------------------------------- clean primitive (C20)
 // Four pages around a 4 GiB address boundary (mapped once per process and caller; not under ASan, whose shadow owns the layout)
 static uint8_t *boundary_page(int task) {
@@ -857,7 +870,17 @@ static void do_clean(World &w, TaskState &t, const Op &op, int index) {
     fill_bytes(before.data(), SZ, op.dseed | 1, 9);
     for (auto &b : before) if (!b) b = 0x5A; // every byte non-zero so that zeroing is observable
     memcpy(t.clean_slot.p(), before.data(), SZ);
-    { CallScope cs(t); tinyjambu_clean(t.clean_slot.p() + off, (unsigned)size); }
+    {
+        CallScope cs(t);
+#if defined(__x86_64__)
+        if (op.d & 1) {
+            // the size parameter is an `unsigned`: the ABI leaves the upper half of its register unspecified (a caller that
+            // narrows a 64-bit value and tail-calls leaves the old bits there). Call with that half dirty.
+            sim_clean_dirty(t.clean_slot.p() + off, (0xA5A5A5A5ULL << 32) | (uint64_t)(unsigned)size);
+        } else
+#endif
+        tinyjambu_clean(t.clean_slot.p() + off, (unsigned)size);
+    }
     bump(w, CT_P_CLEAN_CHECKED);
     if (w.armed == C20 || w.armed == PR_NONE) state(w, 0x200000u | ((unsigned)(off & 15) << 12) | (unsigned)std::min<size_t>(size, 4095));
     const uint8_t *p = t.clean_slot.p();
